@@ -588,6 +588,7 @@ func search(seed uint64, n int, exh int) {
 			}
 		}
 	}
+	evals += hygiene(seed, n) // cross-cutting oracles: hygiene.go
 	fmt.Fprintf(out, "EVALS\t%d\n", evals)
 	out.Flush()
 }
